@@ -68,6 +68,7 @@ class Opts:
         self.sleep = 0.0
         self.gprefix = "gv"
         self.k0 = 0
+        self.uid0 = 0
         self.__dict__.update(kw)
 
 
@@ -77,7 +78,7 @@ class Gen:
         self.o = opts
         self.k = opts.k0
         self.budget = opts.budget
-        self.uid = 0
+        self.uid = opts.uid0
         self.fault_tag = 100
         self.n_faults = 0
         self.max_faults = 1 if opts.faults or opts.natural_faults else 0
@@ -364,6 +365,12 @@ class Gen:
         return self.r.choice([["nil"], ["num", self.r.randint(0, 9)], ["str", self.r.choice(["a", "B", "x y", 'q"t'])], ["bool", True]])
 
     def expr(self, env, depth, ty):
+        if self.o.faults and self.n_faults < self.max_faults and self.r.random() < self.o.faults * 0.05:
+            # an erroring operation in place of any operand / condition / block value
+            self.n_faults += 1
+            self.fault_tag += 1
+            self.features.add("fault_any_position")
+            return ["fault", self.fault_tag]
         if ty == ANY:
             ty = self.r.choice([NUM, BOOL, ARR, ANY])
             if ty == ANY:
@@ -440,6 +447,7 @@ class Gen:
             env.try_depth = 0      # a throw directly under except__ would be taken by it; the statements do not fix that
             a = self.block(env, d, ty, ty)
             h = self.block(env, d, ty, ty, pre={"_exception": "exc"}, named_ok=False)
+            h.insert(0, ["t", self.marker(), ["exc_has", 101]])   # the single planted fault of a program always carries tag 101
             env.try_depth = saved_try
             return ["except", a, h]
         if r < 0.2:
@@ -496,6 +504,11 @@ class Gen:
     def pred_body(self, env, depth, exit_ty, arr):
         """body of count/findIf/select: usually a predicate over _x that singles out particular elements"""
         body = self.block(env, depth, BOOL, exit_ty, named_ok=False, pre={"_x": NUM})
+        if self.o.natural_faults and self.n_faults < self.max_faults and self.r.random() < self.o.natural_faults * 0.3:
+            self.n_faults += 1
+            self.features.add("natural_fault")
+            body[-1] = ["e", ["num", self.r.randint(0, 5)]]    # non-boolean predicate result: error raised by the iteration behaviour
+            return body
         if self.r.random() < 0.6:
             lits = [x[1] for x in arr[1] if x[0] == "num"]
             c = self.r.choice(lits) if (lits and self.r.random() < 0.7) else self.r.randint(-3, 10)
